@@ -106,7 +106,7 @@ func c09(c *Ctx) {
 			q = strings.Replace(q, "\"a\"", "\""+sb.String()+"\"", 1)
 		}
 		if c.Rng.Intn(3) == 0 {
-			q = strings.Replace(q, "(1)", "("+[]string{"-0.5", "1e-3", "2.50", "123456789012345", "1E2", "+3", "0.1"}[c.Rng.Intn(7)]+")", 1)
+			q = strings.Replace(q, "(1)", "("+[]string{"-0.5", "1e-3", "2.50", "123456789012345", "1E2", "+3", "0.1", "0.30000000000000004", "9007199254740993", "1.7976931348623157e308", "123456789.12345678", "1e21", "0.000001", "1e-7"}[c.Rng.Intn(14)]+")", 1)
 		}
 		add(q, "random")
 	}
@@ -199,4 +199,4 @@ func c09(c *Ctx) {
 
 // pieces of string literals as written in a query: plain characters, every backslash sequence (the
 // eight known escapes, the escaped quote, unknown ones such as \d \' \\), apostrophes, non-ASCII
-var litPieces = []string{"a", "b", " ", "'", "%", "$", "é", `\"`, `\a`, `\b`, `\f`, `\n`, `\r`, `\t`, `\v`, `\d`, `\'`, `\\`, `\.`, `\s`, `\0`, "n", "t", `\w+`}
+var litPieces = []string{"a", "b", " ", "'", "%", "$", "é", `\"`, `\a`, `\b`, `\f`, `\n`, `\r`, `\t`, `\v`, `\d`, `\'`, `\\`, `\.`, `\s`, `\0`, "n", "t", `\w+`, `\u005c`, `\u0041`, `\u00e9`, `\u0022`, `\x41`, "u", "0"}
